@@ -390,7 +390,7 @@ namespace Liquid
 `disp` texts ignored) -/
 def Sc.same : Sc → Sc → Bool
   | .int a, .int b => a == b
-  | .flt a, .flt b => a.bits == b.bits
+  | .flt a, .flt b => a.bits == b.bits || (a.toFV == FV.nan && b.toFV == FV.nan)   -- all NaNs are one
   | .bool a, .bool b => a == b
   | .dt a, .dt b => a.loc == b.loc && a.off == b.off
   | .date a, .date b => a.days == b.days
